@@ -311,7 +311,7 @@ func c09(r *Run) {
 		// step to the parent
 		r.requireEffect(w, "C09.R4", "isRepeat:step-to-parent", isr, "call (internal/validitywindow.ChainIndex).GetExecutionBlock(p0.chainIndex, p1, "+EB+"GetParent(*))")
 		// marker.Add(i) under ancestor.Contains
-		r.requireEffect(w, "C09.R4", "isRepeat:mark-on-hit", isr, "call (*ago/utils/set.Bits).Add(*", EB+"Contains(*, (*).GetID(*))")
+		r.requireEffect(w, "C09.R4", "isRepeat:mark-on-hit", isr, "call (ago/utils/set.Bits).Add(*", EB+"Contains(*, (*).GetID(*))")
 	}
 	// IsRepeat wrapper
 	irf := r.fn(w, "C09.R4", nmTVW+"IsRepeat")
